@@ -140,7 +140,7 @@ func (c *Ctx) role(name string) *ssa.Function {
 	case "sam.tagToText":
 		return c.calleeBySig(c.role("sam.tagsToText"), "(string,interface{})(string)", 0)
 	case "trie.keys":
-		return c.calleeBySig(c.fn("trie", "(*Trie).ForEach"), "(*trie.Trie)()([]byte)", 0)
+		return c.calleeBySig(c.fn("trie", "(*Trie).ForEach"), "(*trie.Trie)()([]byte)", 2)
 	}
 	return nil
 }
